@@ -713,7 +713,9 @@ class Fxp():
                     val, signed, n_word, _ = utils.str2num(val, self.signed, self.n_word, None, return_sizes=True)
                     n_frac = self.n_frac
 
-                if n_frac is not None and n_frac == 0:
+                if raw:
+                    vdtype = None       # raw values keep the (integer) type they are parsed to
+                elif n_frac is not None and n_frac == 0:
                     vdtype = int
                 else:
                     vdtype = float
